@@ -2,12 +2,13 @@
 # usage: tools/try_seed.sh <seed-dir-name> <property-id> [extra vf check args]
 # runs the property's check against a scratch worktree of /repo HEAD with the seeded change applied (never touches /repo)
 seed="$1"; id="$2"; shift 2
-wt="/tmp/seedrun-$seed-$id"
+tag="${SEEDRUN_TAG:+-$SEEDRUN_TAG}"   # set SEEDRUN_TAG to run the same seed twice at once
+wt="/tmp/seedrun-$seed-$id$tag"
 git -C /repo worktree remove --force "$wt" 2>/dev/null
 git -C /repo worktree add -q --detach "$wt" HEAD || exit 9
 trap 'git -C /repo worktree remove --force "$wt" 2>/dev/null; rm -rf "$wt.hmod"' EXIT
 git -C "$wt" apply "/verif/seeded/$seed/patch.diff" || { echo "$seed: PATCH DOES NOT APPLY"; exit 8; }
-VF_REPO="$wt" /verif/vf check "$id" --no-evidence "$@" > "/tmp/seedrun-$seed-$id.log" 2>&1
+VF_REPO="$wt" /verif/vf check "$id" --no-evidence "$@" > "/tmp/seedrun-$seed-$id$tag.log" 2>&1
 rc=$?
-v=$(grep -c "^VIOLATION" "/tmp/seedrun-$seed-$id.log")
-echo "$seed on $id: exit=$rc violations=$v $(grep -E '^VIOLATION' /tmp/seedrun-$seed-$id.log | head -2 | sed 's/.*replay=.verif.replays.//' | tr '\n' ' ')"
+v=$(grep -c "^VIOLATION" "/tmp/seedrun-$seed-$id$tag.log")
+echo "$seed on $id: exit=$rc violations=$v $(grep -E '^VIOLATION' /tmp/seedrun-$seed-$id$tag.log | head -2 | sed 's/.*replay=.verif.replays.//' | tr '\n' ' ')"
